@@ -7,8 +7,11 @@ package main
 // the same result lines.
 
 import (
+	"bytes"
+	"encoding/binary"
 	"encoding/hex"
 	"fmt"
+	"math/big"
 	"math/rand"
 	"strconv"
 	"strings"
@@ -275,6 +278,19 @@ func (g *gen) onePure() {
 		b := g.build("mpis", nil, bs)
 		g.parse("mpis", b)
 		g.parse("mpis", g.mutate(b))
+		// C17 "integers are emitted in minimal form and lengths always match contents": judged on the implementation
+		// with the public AppendMPI / AppendMPIs / ExtractMPI(s) — zero is the empty integer, no leading zero byte
+		for _, mb := range append(bs, nil, []byte{1}, []byte{0x80}) {
+			olog.ok("C17")
+			v := new(big.Int).SetBytes(mb)
+			ser := otr3.AppendMPI(nil, v)
+			if len(ser) < 4 || int(binary.BigEndian.Uint32(ser)) != len(ser)-4 || len(ser)-4 != len(v.Bytes()) || !bytes.Equal(ser[4:], v.Bytes()) {
+				olog.viol("C17", "mpi-not-minimal", fmt.Sprintf("AppendMPI(%x) = %x: the length field must be %d and the value the %d significant bytes (zero is the empty integer)", v, ser, len(v.Bytes()), len(v.Bytes())))
+			}
+			if rest, back, ok := otr3.ExtractMPI(ser); !ok || len(rest) != 0 || back.Cmp(v) != 0 {
+				olog.viol("C17", "mpi-round-trip-differs", fmt.Sprintf("ExtractMPI(AppendMPI(%x)) = %v, %x rest, ok=%v", v, back, rest, ok))
+			}
+		}
 		// huge counts
 		huge := append([]byte{byte(g.r.Intn(256)), byte(g.r.Intn(256)), byte(g.r.Intn(256)), byte(g.r.Intn(256))}, g.blob()...)
 		g.parse("mpis", huge)
